@@ -117,6 +117,26 @@ func genHist(seed uint64, prop, tier string, audit bool, mode string) *Plan {
 				if v := tweakVariant(g, o); v != nil {
 					o = v
 				}
+			} else if k == 8 {
+				// next to a lint's effective / ineffective date (where a clock or time-zone dependence would show)
+				var bounds []time.Time
+				for _, n := range meta.Names {
+					m := meta.ByName[n]
+					if m.Kind == o.Kind && !m.Probe {
+						if !m.Eff.IsZero() {
+							bounds = append(bounds, m.Eff)
+						}
+						if !m.Ineff.IsZero() {
+							bounds = append(bounds, m.Ineff)
+						}
+					}
+				}
+				if len(bounds) > 0 {
+					off := pick(g, []time.Duration{0, -time.Second, time.Second, -time.Hour, 5 * time.Hour, -7 * time.Hour, 13 * time.Hour, -24 * time.Hour})
+					if v := redate(o, pick(g, bounds).Add(off)); v != nil {
+						o = v
+					}
+				}
 			} else {
 				yrs := []int{2009, 2013, 2017, 2019, 2021, 2023, 2025}
 				when := objectDateOf(o).AddDate(0, 0, 0)
